@@ -550,8 +550,10 @@ class C18(PropertyCheck):
             yield {**case, "via_mesh": False}
 
     def theorems_for(self, case):
-        return ["C18.a_inside_unchanged", "C18.b_moved_along_ray", "C18.c_within_max_radius",
-                "C18.c_length_order", "C18.c_mesh_uses_data_border", "C18.d_sub_border_last_maximiser"]
+        return ["C18.a_inside_unchanged", "C18.b_moved_along_ray", "C18.b_nearest_border_point",
+                "C18.c_within_max_radius", "C18.c_length_order", "C18.c_mesh_uses_data_border",
+                "C18.c_border_fixed_and_chained", "C18.d_sub_border_slim",
+                "C18.d_sub_border_farthest_from_region_centre"]
 
 
 CHECK = C18()
